@@ -132,7 +132,15 @@ JUST = {"rtu": just_rtu, "binary": just_binary, "ascii": just_ascii, "tcp": just
 FCPOS = {"rtu": 1, "binary": 2, "tcp": 7}
 
 
-def make_just(framing, d, fc, L):
+class _ClientStub(object):
+    """what a synchronous client hands its framer as `client`: the framer may look at it, the bytes are what count"""
+    state = 0
+    silent_interval = 0
+    last_frame_end = 0
+    timeout = 1
+
+
+def make_just(framing, d, fc, L, with_client=False):
     def just(B: bytes) -> bool:
         assume(len(B) == L)
         if framing == "ascii":
@@ -147,9 +155,12 @@ def make_just(framing, d, fc, L):
             assume(B[FCPOS[framing]] == fc)
         elif L > FCPOS[framing]:
             assume(B[FCPOS[framing]] == fc)
+        if with_client and framing == "tcp":
+            assume(B[4] == 0)
+            assume(B[5] <= 16)          # announced MBAP length 0..16 (longer and shorter than the buffer both included)
         # (a buffer too short to hold a function-code byte is wholly symbolic)
         spy = _dec(d)
-        rx = adu.framer_class(framing)(spy)
+        rx = adu.framer_class(framing)(spy, _ClientStub()) if with_client else adu.framer_class(framing)(spy)
         got = []
         try:
             rx.processIncomingPacket(B, got.append, 0)        # unit 0 in the accepted list = accept every unit id
@@ -173,9 +184,17 @@ def make_just(framing, d, fc, L):
 
 def _is_headerless(B, pdu):
     """region of KF-tcp-headerless-error-frame: the 'PDU' handed to the decoder is the raw tail of the buffer
-    (at most 7 bytes, i.e. no room for an MBAP header in front of it)"""
+    (at most 7 bytes, i.e. no room for an MBAP header in front of it) and what precedes it is nothing or one whole
+    frame -- i.e. the tail is a leftover, not the payload behind a parsed header (a truncated frame is not this finding)"""
     n = len(pdu)
-    return n <= 7 and bytes_eq(B[len(B) - n:], pdu)
+    if not (n <= 7 and bytes_eq(B[len(B) - n:], pdu)):
+        return False
+    pre = len(B) - n
+    if pre == 0:
+        return True
+    if pre < 8:
+        return False
+    return B[4] * 256 + B[5] == pre - 6
 
 
 def _lenient_lrc(B):
@@ -304,4 +323,11 @@ def obligations(tier):
                                    findings=(("KF-tcp-headerless-error-frame",) if framing == "tcp" and fc in (3, 0x55) and L == 12 else ()) +
                                             (("KF-ascii-lenient-lrc-field",) if framing == "ascii" and fc in (6, 7) and d == "rsp" else ()),
                                    bounds="%s framing, %s decoder, any %d-byte buffer whose function-code byte is 0x%02X, one read" % (framing, d, L, fc)))
+    # the same question for a framer constructed the way the synchronous clients construct it (with a client object)
+    for framing, L in (("tcp", 9), ("tcp", 12), ("rtu", 7)) if tier == "quick" else (("tcp", 9), ("tcp", 10), ("tcp", 12), ("rtu", 7), ("rtu", 8), ("ascii", 13)):
+        for fc in ((1, 3) if tier == "quick" else (1, 2, 3, 17, 24, 43, 0x83)):
+            out.append(Obl("just.%s-client.rsp.fc%d.len%d" % (framing, fc, L), make_just(framing, "rsp", fc, L, with_client=True), timeout=T,
+                           contracts=contracts[framing], lemmas=lem[framing],
+                           findings=(("KF-tcp-headerless-error-frame",) if framing == "tcp" and fc == 3 and L == 12 else ()),
+                           bounds="%s framing, client decoder, framer constructed with a client object (as the synchronous clients do): any %d-byte buffer whose function-code byte is 0x%02X (TCP: announced length 0..16), one read" % (framing, L, fc)))
     return out
